@@ -171,7 +171,8 @@ pub fn gen_step(s: &mut Pool2, rng: &mut Rng, ctx: &mut Ctx) -> Step {
                 None
             };
             let receiver = if rng.chance(1, 5) { Some(rng.idx(s.cfg.n_users)) } else { None };
-            let funds_mode = if rng.chance(1, 12) { rng.range(1, 2) as u8 } else { 0 };
+            // 1, 2: native funds missing; 3: native assets mislabelled as cw20; 4: a foreign coin as second asset; 5: first asset twice
+            let funds_mode = if rng.chance(1, 9) { rng.range(1, 5) as u8 } else { 0 };
             Op::Provide { amounts, slippage, receiver, rev: rng.chance(1, 3), funds_mode }
         }
         1 if rng.chance(1, 8) => {
